@@ -413,3 +413,69 @@ theorem partialUpdateBlock_same (Ab : CRS (Blk K)) (hs : Ab.sortedb = true) (p :
 end assemble
 
 end Amgcl.CPRDrs
+
+namespace Amgcl.CPRDrs
+open Amgcl Amgcl.CPR
+
+section outcome
+variable {K : Type} [Field K] [LinearOrder K]
+
+theorem initScalar_some {A : CRS K} {p : Params K} {st : State K} (h : initScalar A p = some st) :
+    st = scalarState A p := by
+  unfold initScalar at h
+  simp only at h
+  by_cases hc : (!(p.weights.isEmpty || p.weights.size == (if p.activeRows = 0 then A.nrows else p.activeRows))) = true
+  · rw [if_pos hc] at h; cases h
+  · rw [if_neg hc] at h; exact (Option.some.inj h).symm
+
+theorem initBlock_some {A : CRS (Blk K)} {p : Params K} {st : State K} (h : initBlock A p = some st) :
+    st = blockState A p := by
+  unfold initBlock at h
+  simp only at h
+  by_cases hc : (!(p.weights.isEmpty || p.weights.size == (if p.activeRows = 0 then A.nrows else p.activeRows) * p.B)) = true
+  · rw [if_pos hc] at h; cases h
+  · rw [if_neg hc] at h; exact (Option.some.inj h).symm
+
+theorem initBlock_cond {A : CRS (Blk K)} {p : Params K} {st : State K} (h : initBlock A p = some st) :
+    (p.weights.isEmpty || p.weights.size == (if p.activeRows = 0 then A.nrows else p.activeRows) * p.B) = true := by
+  unfold initBlock at h
+  simp only at h
+  by_cases hc : (!(p.weights.isEmpty || p.weights.size == (if p.activeRows = 0 then A.nrows else p.activeRows) * p.B)) = true
+  · rw [if_pos hc] at h; cases h
+  · cases hb : (p.weights.isEmpty || p.weights.size == (if p.activeRows = 0 then A.nrows else p.activeRows) * p.B) with
+    | true => rfl
+    | false => rw [hb] at hc; exact absurd rfl hc
+
+theorem expand_active (Ab : CRS (Blk K)) (B act : Nat) (hB : 0 < B) :
+    (if act * B = 0 then (expand B Ab).nrows else act * B) = (if act = 0 then Ab.nrows else act) * B := by
+  rw [expand_nrows]
+  by_cases ha : act = 0
+  · simp [ha]
+  · have : act * B ≠ 0 := Nat.mul_ne_zero ha (by omega)
+    simp [ha, this]
+
+/-- the `precondition` on `weights.size()` has the same outcome for both forms of the input -/
+theorem init_isSome_expand (Ab : CRS (Blk K)) (p : Params K) (hB : 0 < p.B) :
+    (initScalar (expand p.B Ab) { p with activeRows := p.activeRows * p.B }).isSome = (initBlock Ab p).isSome := by
+  unfold initScalar initBlock
+  simp only
+  rw [expand_active Ab p.B p.activeRows hB]
+  by_cases hc : (!(p.weights.isEmpty || p.weights.size == (if p.activeRows = 0 then Ab.nrows else p.activeRows) * p.B)) = true
+  · rw [if_pos hc, if_pos hc]
+  · rw [if_neg hc, if_neg hc]; rfl
+
+end outcome
+
+section absolute
+variable {K : Type} [Field K] [LinearOrder K] [IsStrictOrderedRing K]
+
+/-- `std::abs` on the value type is the absolute value -/
+theorem absK_eq_abs (x : K) : absK x = |x| := by
+  unfold absK
+  split_ifs with h
+  · exact (abs_of_neg h).symm
+  · exact (abs_of_nonneg (not_lt.1 h)).symm
+
+end absolute
+
+end Amgcl.CPRDrs
